@@ -19,7 +19,8 @@ PROPS = {
         "level_text": "All clauses are theorems about the Gallina model of version.rs for every byte string / every u32 tuple "
                       "(parse accepts exactly 1..4 dot-separated +?digits numerals < 2^32 and zero-fills; rejection iff >4 parts or a bad part; "
                       "print is the 4-part canonical form; parse(print v)=v; array conversion zero-fills; compare is the lexicographic numeric "
-                      "total order; serde uses the canonical string).  The model is tied to the code by differential runs on every check.",
+                      "total order; serde uses the canonical string).  The model is tied to the code by differential runs on every check.  Deserialisation is also run through a reader, a parsed Value and an escaped literal, and printing through placeholders that carry a precision; all routes must agree.",
+        
         "level_note": "Proved for the model, unbounded. Model = code is validated on sampled inputs (thorough: exhaustive for strings of length <= 5 over 8 symbols). "
                       "Leading '+' is accepted by Rust's u32::from_str and therefore by the model (DESIGN.md section 6).",
         "run": ["EvalC20"],
@@ -93,7 +94,7 @@ PROPS = {
                       "for all byte strings and for ARBITRARY sha256 / DER / ECDSA functions (explicit arguments, no axioms): accepted iff the first ETag is printable and, "
                       "after parse_etag, is hex(s) ':' hex(SHA-256(request body)) with s passing the DER check and verifying under the key the map holds for the id over "
                       "sha256(sha256 req ++ sha256 resp ++ dec id ++ ':' ++ hex nonce), s returned unchanged; plain/quoted/weak-quoted agree (exact side condition); "
-                      "the outcome is Ok or one of the 8 error variants; tamper theorems for response body, request body, nonce, key id, hash half, signature, signing key.",
+                      "the outcome is Ok or one of the 8 error variants; tamper theorems for response body, request body, nonce, key id, hash half, signature, signing key.  Each authentic case is followed, on the SAME handler, by the same ETag over an altered response body and the stored signature over altered bodies (all must be refused) and by the genuine exchange again (must be accepted): the verifier is a function of its arguments whatever it verified before.",
         "level_note": "Proved for the model, unbounded. The tamper theorems carry their idealising premises explicitly (no SHA-256 collision on the two inputs compared, digests of a "
                       "fixed length, a signature verifies for at most one message under a key); ECDSA malleability is not excluded (the high-S twin is an authentic signature). "
                       "Model = code is sampled: authentic exchanges signed by the harness with p256 over a digest composed with sha2 (never make_transaction_hash), plus mutation streams; "
@@ -185,7 +186,8 @@ PROPS = {
                       "at most items+SelfWakes+Waits+3 polls, bound attained; an idle consumer whose awaited events are all completed has received the completion), "
                       "C13_monitor_accepts_model and three monitor-soundness theorems (acceptance of ANY observation list implies order/exactly-once, back-pressure on the observed "
                       "finished-operation log, wake-up discipline); C13_into_yielded_order / C13_into_complete_result for the two filter_map wrappers.  Tied to the code by running the same "
-                      "programs on the real generate() (raw, .into_yielded(), .into_complete()) through an async interpreter, polled by hand with a counting root waker.",
+                      "programs on the real generate() (raw, .into_yielded(), .into_complete()) through an async interpreter, polled by hand with a counting root waker.  The harness, as an observer, also finds the shared storage and app set unlocked at every event it takes (a lock held across an emission would deadlock an observer that uses them: script-aware check, code 2); the scripted installer reports sequentially, concurrently, or hands its reports over and returns without waiting.",
+        
         "level_note": "Proved for the model, unbounded.  Model = code is sampled (quick: ~500 random programs of length <= 30 x 4 schedules; thorough adds all programs of length <= 4 over "
                       "5 operations x all schedules of length <= 8).  The futures-channel model is hand-written from its source (third party); real wakers and memory ordering are runtime.  "
                       "The state-machine clauses of C13 (progress before outcome, APoll boundaries) are in the SM model, not in this check.",
